@@ -620,6 +620,29 @@ func c17Ops() []c17Op {
 			}
 			return sb.String()
 		}},
+		{"ParseBlobs then commit", func(in *c17Input) string {
+			// the parsed blobs keep views of the shares (namespace, signer); everything a
+			// caller does next with such a blob is a read-only operation on the shares too
+			blobs, err := share.ParseBlobs(in.sq[in.compactEnd():])
+			if err != nil {
+				return "err"
+			}
+			var sb strings.Builder
+			for i, b := range blobs {
+				if i >= 4 {
+					break
+				}
+				roots, err := inclusion.GenerateSubtreeRoots(b, in.thr)
+				sb.WriteString(errOr(err, func() string { return digestBytesList(roots) }) + ";")
+				cm, err := inclusion.CreateCommitment(b, rfc6962Root, in.thr)
+				sb.WriteString(errOr(err, func() string { return hx(cm) }) + ";")
+				shs, err := b.ToShares()
+				sb.WriteString(errOr(err, func() string { return digestShares(shs) }) + ";")
+				m, err := b.Marshal()
+				sb.WriteString(errOr(err, func() string { return digestList([][]byte{m}) }) + ";")
+			}
+			return sb.String()
+		}},
 		{"inclusion.CreateCommitment", func(in *c17Input) string {
 			var sb strings.Builder
 			for i, b := range in.blobs {
@@ -652,7 +675,7 @@ func runOp(op c17Op, in *c17Input) (res string) {
 // ---------------------------------------------------------------------------
 
 func genC17(c *Ctx) {
-	c.rule = "squares built from generated transaction lists (as in C01-C12: ordinary and blob txs, versions 0/1, boundary lengths, several namespaces); transactions, shares, wrapped PFBs and blob fields laid out as two-index views (spare capacity = rest of the buffer) into one contiguous arena each; every read-only operation (Construct, Build, Tx/BlobShareRange, UnmarshalBlobTx/IndexWrapper, MarshalBlobTx, ParseShares + Sequence.RawData, GetShareRangeForNamespace, Deconstruct, WrappedPFBs, ParseTxs, ParseBlobs, share and namespace accessors, NewBlob, Blob.ToShares/Marshal, UnmarshalBlob, GenerateSubtreeRoots, CreateCommitment) is followed by a byte comparison of the arenas and the package-level namespaces with snapshots and compared with its result on individually allocated copies; ParseBlobs/ParseTxs on arena views (full, exact and random capacities, duplicated and misaligned views) against the explicit-memory Coq model; 8 goroutines over the same views under the race detector; non-trivial = distinct square containing a blob of at least two shares, or distinct view layout of a multi-share sequence"
+	c.rule = "squares built from generated transaction lists (as in C01-C12: ordinary and blob txs, versions 0/1, boundary lengths, several namespaces); transactions, shares, wrapped PFBs and blob fields laid out as two-index views (spare capacity = rest of the buffer) into one contiguous arena each; every read-only operation (Construct, Build, Tx/BlobShareRange, UnmarshalBlobTx/IndexWrapper, MarshalBlobTx, ParseShares + Sequence.RawData, GetShareRangeForNamespace, Deconstruct, WrappedPFBs, ParseTxs, ParseBlobs, share and namespace accessors, NewBlob, Blob.ToShares/Marshal, UnmarshalBlob, GenerateSubtreeRoots, CreateCommitment, and commit / split / marshal of blobs returned by ParseBlobs) is followed by a byte comparison of the arenas and the package-level namespaces with snapshots and compared with its result on individually allocated copies; ParseBlobs/ParseTxs on arena views (full, exact and random capacities, duplicated and misaligned views) against the explicit-memory Coq model; 8 goroutines over the same views under the race detector; non-trivial = distinct square containing a blob of at least two shares, or distinct view layout of a multi-share sequence"
 	r := c.rng
 	ops := c17Ops()
 	globals := snapGlobals()
